@@ -36,7 +36,7 @@ ASSUMPTIONS = ["edits go through public attributes (flowgen.apply_edit)", "state
                "server connection is not OPEN (address/via edits on open connections are refused by design)"]
 LEVEL_TEXT = "exploration: sampled edit/backup/revert/copy histories over all flow kinds; reference model = snapshots taken by the harness"
 LEVEL_NOTE = "trusts flowgen.observe for attribute-level comparison"
-QUICK_N, THOROUGH_N = 40_000, 1_500_000
+QUICK_N, THOROUGH_N = 32_000, 1_500_000
 
 
 def strategy(ctx):
@@ -45,8 +45,11 @@ def strategy(ctx):
     for kind in ("http", "ws", "tcp", "udp", "dns"):
         e = fg.edits(kind)
         ep = pool.mix("c40edit" + kind, e)
+        nested = st.tuples(st.just("meta"), st.sampled_from(["k", "j"]), st.sampled_from([[1], {"a": [1]}, [[2], 3], {"sub": 0}])).map(list)
+        inplace = st.tuples(st.just("meta_inplace"), st.sampled_from(["k", "j", 0, 1]), st.integers(0, 9)).map(list)
         op = st.one_of(
             st.tuples(st.just("edit"), ep), st.tuples(st.just("edit"), ep), st.tuples(st.just("edit"), ep),
+            st.tuples(st.just("edit"), nested), st.tuples(st.just("edit"), inplace), st.tuples(st.just("edit_copy"), inplace),
             st.tuples(st.just("backup")), st.tuples(st.just("backup")), st.tuples(st.just("revert")),
             st.tuples(st.just("copy")), st.tuples(st.just("edit_copy"), ep),
             st.tuples(st.just("restore"), st.sampled_from(["comment", "marked", "body", "messages", "metadata"])),
